@@ -442,11 +442,11 @@ func runCase(r *ev.Run, dir string, c crashCase) caseResult {
 	case "wall":
 		kill = func(cmd *exec.Cmd) {
 			// wait for the ready line, then kill after the seeded delay
-			for i := 0; i < 20000; i++ {
+			for i := 0; i < 10000; i++ {
 				if b, _ := os.ReadFile(jpath); strings.Contains(string(b), "ready\n") {
 					break
 				}
-				time.Sleep(500 * time.Microsecond)
+				time.Sleep(2 * time.Millisecond)
 			}
 			time.Sleep(time.Duration(c.WallUS) * time.Microsecond)
 			_ = cmd.Process.Kill()
@@ -610,11 +610,14 @@ func run(r *ev.Run) {
 	dir := r.TempDir()
 	cfgs := configs()
 	batches := 14
-	maxOcc := r.Scale(2, 8)
+	maxOcc := r.Scale(1, 8)
 	extraOcc := r.Scale(1, 3)
-	nWall := r.Scale(40, 400)
-	nRec := r.Scale(24, 240)
-	r.MinDistinct = r.Scale(150, 1500)
+	nWall := r.Scale(20, 400)
+	nRec := r.Scale(14, 240)
+	r.MinDistinct = r.Scale(80, 1500)
+	if !r.Thorough() {
+		cfgs = cfgs[:4]
+	}
 
 	g := r.Rng("cases")
 	var cases []crashCase
